@@ -821,4 +821,89 @@ theorem copy_str_other_package_rejected {w : World} {d s c k : Nat} {rm : Bool} 
   have : (sd.pkg == ss.pkg) = false := by simpa using hpk
   simp only [bind, Except.bind, selection, hc, this, Bool.false_eq_true, if_false]
 
+/-! ### `MultiStream.copy_flow` (multi-phase destination) -/
+
+theorem colsum_zipRowsFrom {k : Nat} (f : Nat → Row → Row → Row) (g : Row → Rat)
+    (hf : ∀ i d s, (f i d s).get k = g s) :
+    ∀ (i : Nat) (ds : PhRows) (ss : List Row), ds.length = ss.length →
+      colsum (zipRowsFrom f i ds ss) k = rsum (ss.map g) := by
+  intro i ds
+  induction ds generalizing i with
+  | nil => intro ss h; cases ss with
+    | nil => simp [zipRowsFrom]
+    | cons _ _ => simp at h
+  | cons x ds ih =>
+    obtain ⟨p, d⟩ := x
+    intro ss h
+    cases ss with
+    | nil => simp at h
+    | cons s ss =>
+      have hl : ds.length = ss.length := by simpa using h
+      simp [zipRowsFrom, hf, ih (i + 1) ss hl]
+
+theorem get_putCols_all {n k : Nat} (hk : k < n) (dst src : Row) : (putCols n .all dst src).get k = src.get k := by
+  unfold putCols; rw [get_tab_lt hk]; simp [Cols.has]
+
+theorem get_zeroCols_all {n k : Nat} (hk : k < n) (r : Row) : (zeroCols n .all r).get k = 0 := by
+  unfold zeroCols; rw [get_tab_lt hk]; simp [Cols.has]
+
+/-- **Cut and paste between multi-phase streams with as many phases** (`IDs = ...`, `phase = ...`,
+`remove=True`): every chemical is moved.  (Rows are paired by position; with *more* source phases than
+destination phases material is lost, see `copy_multi_counterexample`.) -/
+theorem copy_multi_all_partial {w w' : World} {d s : Nat} {sd ss : Strm}
+    (h : copyMulti w d s none .all true false = .ok w') (hds : d ≠ s)
+    (hd : w.strms[d]? = some sd) (hs : w.strms[s]? = some ss)
+    (hm : ss.multi = true) (hlen : sd.ph.length = ss.ph.length) (c : Nat) :
+    w'.amount d c = w.amount s c ∧ w'.amount s c = 0 := by
+  unfold copyMulti at h
+  rw [get?_ok.mpr hd, get?_ok.mpr hs] at h
+  simp only [bind, Except.bind] at h
+  split at h
+  · cases h
+  · rename_i hg
+    have hPQ : w.pkgOf sd = w.pkgOf ss := by
+      simp only [Bool.and_eq_true, bne_iff_ne, ne_eq, not_and, Decidable.not_not] at hg
+      by_cases hp : sd.pkg = ss.pkg
+      · exact pkgOf_eq_of_pkg hp
+      · exact hg hp
+    simp only [hm, if_true, Bool.false_eq_true, if_false, Bool.true_and] at h
+    have hget : (w.setStrm d { sd with ph := zipRowsFrom (fun i cur sr => if selRow none i = true then
+        putCols (w.pkgOf sd).length Cols.all cur sr else cur) 0 sd.ph ss.rows }).get? s = .ok ss := by
+      apply get?_ok.mpr
+      rw [getElem?_setStrm_other hds]; exact hs
+    rw [hget] at h
+    simp only [] at h
+    cases h
+    rw [amount_of_get hs]
+    have hrl : sd.ph.length = ss.rows.length := by simpa [Strm.rows] using hlen
+    constructor
+    · rw [amount_setStrm_other (Ne.symm hds), amount_setStrm_same hd, amount_eq, amount_eq]
+      have e : w.pkgOf { sd with ph := zipRowsFrom (fun i cur sr => if selRow none i = true then
+        putCols (w.pkgOf sd).length Cols.all cur sr else cur) 0 sd.ph ss.rows } = w.pkgOf sd := rfl
+      rw [e, ← hPQ]
+      cases hP : pos (w.pkgOf sd) c with
+      | none => rfl
+      | some k =>
+        simp only []
+        rw [colsum_zipRowsFrom _ (fun r => r.get k) _ 0 sd.ph ss.rows hrl]
+        · unfold colsum Strm.rows; rw [List.map_map]; rfl
+        · intro i dd sr
+          simp only [selRow, if_true]
+          exact get_putCols_all (pos_lt hP) dd sr
+    · rw [amount_setStrm_same (by rw [getElem?_setStrm_other hds]; exact hs), amount_eq]
+      have e : ∀ ph, w.pkgOf { pkg := ss.pkg, multi := ss.multi, ph := ph } = w.pkgOf ss := fun _ => rfl
+      simp only [pkgOf_setStrm]
+      rw [e]
+      cases hQ : pos (w.pkgOf ss) c with
+      | none => rfl
+      | some k =>
+        simp only []
+        have hk : k < (w.pkgOf sd).length := by rw [hPQ]; exact pos_lt hQ
+        rw [colsum_zipRowsFrom _ (fun r => r.get k) (fun _ _ _ => rfl) 0 ss.ph _ (by simp [Strm.rows])]
+        apply rsum_map_zero
+        intro r hr
+        obtain ⟨⟨r0, i⟩, _, rfl⟩ := List.mem_map.mp hr
+        simp only [selRow, if_true]
+        exact get_zeroCols_all hk r0
+
 end ThermoVerif.FlowOps
